@@ -111,6 +111,41 @@ func vfC14(c *hx.Ctx) {
 	// the process-wide entropy source: its AES state is written by assembly, which ThreadSanitizer does not see, so the
 	// generator is checked by interleaving exploration with scheduling points after every Unlock instead
 	vfEntropyConcurrent(c, "C14:unsynchronised-generator-state:concurrent-draws-repeat")
+	// several readers with buffers smaller than a message share the carried-over tail; a tiny scenario, explored with an
+	// extra scheduling point after every Unlock, so that every single deviation is covered (accesses that one schedule
+	// happens to order through an unrelated atomic are concurrent in another)
+	for _, stream := range []bool{true, false} {
+		cf := vfPairCfg{SDS: -1, Stream: stream, NoDelay: [4]int{1, 10, 2, 1}, Writes: []int{40, 33}, ReadBuf: 4096, Pool: vrt.PoolPlain, Preempt: 1, Switch: 1, Select: 1,
+			Owners: []string{"C14:"}, HorizonS: 20, UnlockPoints: true}
+		body := func(p *vfPair) {
+			var cw []byte
+			p.writer(p.client, 0, cf.Writes, &cw)
+			s, err := p.listener.AcceptKCP()
+			if err != nil {
+				return
+			}
+			p.mu.Lock()
+			p.server = s
+			p.mu.Unlock()
+			s.SetReadDeadline(vrt.Now().Add(50 * time.Millisecond))
+			var wg vrt.WaitGroup
+			for i := 0; i < 3; i++ {
+				wg.Add(1)
+				vrt.Go(fmt.Sprintf("small-reader-%d", i), func() {
+					defer wg.Done()
+					for j := 0; j < 4; j++ {
+						if _, err := s.Read(make([]byte, 7)); err != nil {
+							return
+						}
+					}
+				})
+			}
+			wg.Wait()
+			p.teardown()
+		}
+		c.UnitBudget = 15 * time.Second
+		c.Explore(fmt.Sprintf("small-buffer-readers/stream=%v", stream), vfPairParams(cf, 1), 1, vfPairRun(cf, 1, body))
+	}
 	bound := hx.Pick(c, 1, 2)
 	type class struct {
 		ciph   string
